@@ -110,3 +110,33 @@ def build(environments, platform: str, selection: Optional[str], interpreter: bo
                 env[v] = launch[v]
                 info.setdefault("interpreter_added", []).append(v)
     return "ok", env, info
+
+
+def _selftest():
+    """Hand-computed cases (python -m ref.c17_environment)."""
+    envs = {"default": {"MyEnv": {"DEFAULTS": "PATH:IMP:NOT_THERE", "A": "a-def", "B": "$A/b:${LAUNCHV}:$UNDEF",
+                                  "PATH": "mine:$PATH", "N": 3, "E": None},
+                        "environment": {"D": "dflt"}},
+            "p1": {"MYENV": {"A": "a-p1", "C": "$A-$LIB"}, "only": {"X": "$VERIF_LEAK_1"}}}
+    launch = {"PATH": "/bin", "IMP": "imported", "LAUNCHV": "lv", "A": "a-launch", "LIB": "launch-lib",
+              "VERIF_LEAK_1": "leak1", "PYTHONPATH": "/pp"}
+    sysv = {"S": "sys"}
+    st, env, info = build(envs, "default", "myENV", False, launch, sysv)
+    assert st == "ok" and env == {"S": "sys", "A": "a-def", "B": "a-def/b:lv:$UNDEF", "PATH": "mine:/bin", "N": "3",
+                                  "E": "", "IMP": "imported"}, env
+    st, env, info = build(envs, "p1", "myenv", True, launch, sysv)
+    assert env == {"S": "sys", "A": "a-p1", "B": "a-p1/b:lv:$UNDEF", "PATH": "mine:/bin", "N": "3", "E": "",
+                   "C": "a-p1-launch-lib", "IMP": "imported", "PYTHONPATH": "/pp"}, env
+    assert info["where"] == "both" and info["imported"] == ["PATH", "IMP"]
+    assert build(envs, "default", "only", False, launch, sysv)[:2] == ("unknown", "only")
+    assert build(envs, "p1", "ONLY", False, launch, sysv)[1] == {"S": "sys", "X": "leak1"}
+    assert build(envs, "p1", "None", False, launch, sysv)[1] == {"S": "sys"}
+    assert build(envs, "p1", None, False, launch, sysv)[1] == {"S": "sys", "D": "dflt"}
+    del envs["default"]["environment"]
+    st, env, info = build(envs, "p1", "", False, launch, sysv)
+    assert env == dict(launch, S="sys") and info["launch_is_base"]
+    print("c17_environment selftest ok")
+
+
+if __name__ == "__main__":
+    _selftest()
